@@ -425,7 +425,7 @@ class OutOuter(object):
 class RunState(object):
     __slots__ = ("ops", "maxops", "aux")
 
-    def __init__(self, maxops=20000):
+    def __init__(self, maxops=3000):
         self.ops = 0
         self.maxops = maxops
         self.aux = {}
@@ -501,6 +501,15 @@ GUARD = 8          # guard elements on each side
 FILLS = (0x00, 0xFF, 0xA5)
 
 _fill_cache = {}
+
+
+def arg_fill(fill, i, row=None):
+    """Byte pattern of the guard zones / filler of argument number i: every array gets its own pattern, so that a
+    kernel copying one array's guard zone into another's is seen."""
+    b = fill + 0x35 * i
+    if row is not None:
+        b += 0x11 * (row + 1)
+    return b & 0xFF
 
 
 def fill_value(base, fill):
